@@ -12,6 +12,10 @@
 (* as two stacked sample dimensions (NS = 2 x NS/2) resp. as a user        *)
 (* MultiIndex: the sanitizer then drops rows of a STACKED index, and every *)
 (* later stage has to restore labels for the rows that are left.           *)
+(* Kind "LIST2" presents the features 1..NF/2 and the rest as two list     *)
+(* elements: each element is sanitised on its own, so a sample missing in  *)
+(* one element only is an isolated gap of the joint matrix (refused), not  *)
+(* a fully missing sample.                                                  *)
 (* For cross-set models a second space enumerates the sets of fully        *)
 (* missing samples of the two fields.                                      *)
 (***************************************************************************)
@@ -22,7 +26,7 @@ CONSTANTS NS, NF, MKinds, CrossNS
 VARIABLES kind, mask, rx, ry, pred, phase
 vars == <<kind, mask, rx, ry, pred, phase>>
 
-GridKinds == {"DA", "DS2", "DA2S", "DAMI"}
+GridKinds == {"DA", "DS2", "DA2S", "DAMI", "LIST2"}
 S == 1..NS
 F == 1..NF
 Cells == S \X F
@@ -41,11 +45,13 @@ Init ==
     /\ phase = "cfg" /\ pred = [class |-> "none"]
     /\ kind \in MKinds
     /\ \/ (kind \in GridKinds /\ mask \in SUBSET Cells /\ rx = {} /\ ry = {})
-       \/ (kind = "CROSS" /\ mask = {} /\ rx \in SUBSET (1..CrossNS) /\ ry \in SUBSET (1..CrossNS))
+       \* "CROSSLAG": the second field carries other sample labels (a lagged analysis); the fields are paired by
+       \* position, so the verdict is the same function of the positions
+       \/ (kind \in {"CROSS", "CROSSLAG"} /\ mask = {} /\ rx \in SUBSET (1..CrossNS) /\ ry \in SUBSET (1..CrossNS))
 
 Decide ==
     /\ phase = "cfg" /\ phase' = "done"
-    /\ pred' = IF kind = "CROSS"
+    /\ pred' = IF kind \in {"CROSS", "CROSSLAG"}
                THEN [class |-> CrossVerdict(rx, ry), dropS |-> rx \cup ry, dropF |-> {},
                      enough |-> Cardinality((1..CrossNS) \ (rx \cup ry)) >= 3]
                ELSE [class |-> Classify(mask), dropS |-> S \ ValidS(mask), dropF |-> F \ ValidF(mask),
@@ -56,10 +62,10 @@ Next == Decide
 Spec == Init /\ [][Next]_vars
 
 Done == phase = "done"
-C06_CriteriaAgree == (kind # "CROSS") => (Rect(mask) <=> CodeOK(mask))
+C06_CriteriaAgree == (kind \in GridKinds) => (Rect(mask) <=> CodeOK(mask))
 C06_DropExactly ==
-    (Done /\ kind # "CROSS" /\ pred.class # "isolated") =>
+    (Done /\ kind \in GridKinds /\ pred.class # "isolated") =>
         \A s \in S, f \in F : (<<s, f>> \in mask) <=> (s \in pred.dropS \/ f \in pred.dropF)
 C06_IsolatedRefused ==
-    (Done /\ kind # "CROSS") => ((pred.class = "isolated") <=> \E s \in ValidS(mask), f \in ValidF(mask) : <<s, f>> \in mask)
+    (Done /\ kind \in GridKinds) => ((pred.class = "isolated") <=> \E s \in ValidS(mask), f \in ValidF(mask) : <<s, f>> \in mask)
 =============================================================================
